@@ -316,6 +316,9 @@ def is_mac(fam):
 # carriers (how a byte string is handed to the library)
 
 CARRIERS = ["bytes", "bytearray", "mv_ro", "mv_rw", "mv_off"]
+# memoryviews that are not C-contiguous: legal Python objects, not something the library documents; it may refuse them
+# (and must then be unaffected) or process the bytes they show, never the memory behind them
+STRIDED = ["mv_stride2", "mv_rev"]
 
 
 class Carried(object):
@@ -345,6 +348,14 @@ class Carried(object):
             self.off = off
             self.backing = bytearray([self.GUARD]) * off + bytearray(self.payload) + bytearray([self.GUARD]) * 16
             self.obj = memoryview(self.backing)[off:off + n]
+        elif carrier == "mv_stride2":
+            self.backing = bytearray(2 * n)
+            self.backing[0::2] = self.payload
+            self.backing[1::2] = bytes([self.GUARD]) * n
+            self.obj = memoryview(self.backing)[::2]
+        elif carrier == "mv_rev":
+            self.backing = bytearray(self.payload[::-1])
+            self.obj = memoryview(self.backing)[::-1]
         else:
             raise ValueError(carrier)
 
@@ -353,6 +364,8 @@ class Carried(object):
         return bytes(self.obj)
 
     def guards_ok(self):
+        if self.carrier == "mv_stride2":
+            return all(b == self.GUARD for b in self.backing[1::2])
         if self.carrier != "mv_off":
             return True
         off, n = self.off, len(self.payload)
